@@ -19,7 +19,7 @@ ASSUMPTIONS = ["finite F and finite initial population (a NaN passes both compar
                "primitives return values in their documented range", "exact arithmetic in the model; harvested float "
                "trajectories compared within 2^-30 relative"]
 TRUSTED = ["models: coq/theories/DEOps.v; checkers C07Check.v; translator harness/translate_pools.py (GenDEPool.v)", "code translator harness/translate_code.py (bounds_control, bounds_control_mean, binomial, DE strategies -> gen/GenCode.v) over coq/theories/Py.v; models PROVED equal to the generated definitions (theories/CodeEqC07.v)"]
-THEORIES = ["Base", "RandomPrims", "RandomPrimsProofs", "RandomPrimsProofs2", "DEOps", "DEOpsProofs", "C11Check", "C07Check", "GenDEPool", "Py", "PyLemmas", "GenCode", "CodeEqC11", "CodeEqC06", "CodeEqC07"]
+THEORIES = ["Base", "RandomPrims", "RandomPrimsProofs", "RandomPrimsProofs2", "DEOps", "DEOpsProofs", "C11Check", "C07Check", "GenDEPool", "Py", "PyLemmas", "GenCode", "CodeEqC11", "CodeEqC06", "CodeEqC07", "BinaryOps", "BinaryOpsProofs", "C06Check", "CodeEqNewIndivid"]
 IMPORTS = "From TF Require Import Base RandomPrims DEOps C11Check C07Check."
 MU = "thefittest.utils.mutations."
 STRATS = ["best_1", "rand_1", "rand_to_best1", "current_to_best_1", "best_2", "rand_2"]
@@ -30,7 +30,7 @@ EPS = 2.0 ** -53
 def gen(ctx):
     TP.emit()
     import translate_code as TC
-    TC.ensure(TC.C07_FUNCS)
+    TC.ensure(TC.C07_FUNCS + TC.C07_METHODS + TC.C06_METHODS + TC.C06_FUNCS)
 
 
 def qv(v):
